@@ -423,6 +423,12 @@ func (s *seqRun) step(i int, o Op) bool {
 		}
 		if an == "ended" || an == "unknown" {
 			s.probes["late-call"]++
+			if o.K == "create" && r.HandedOut && o.Ctx != "dead" {
+				// every call through a finished transaction is refused - Create is a call: it must not
+				// hand out a file whose Close then breaks the news
+				s.fail("error-class", "late-create-handed-out-a-file,actor="+an, fmt.Sprintf("step %d (%s by %s): Create through a finished transaction returned a file (its Write/Close then said: %v); the call itself must return ErrTxNotFound", i, o, an, r.Err))
+				return false
+			}
 		}
 		if r.Class == "ErrTxSerialization" {
 			s.probes["commit-conflict"]++
@@ -799,6 +805,11 @@ func (s *seqRun) recordsStep(i int, o Op) {
 		case 3: // ... or the raw form of an id stored earlier
 			for _, w := range want {
 				f.Key = string(rawUUID(w.TxId))
+				break
+			}
+		case 4, 5: // another version of a key a transaction stored already (same transaction id, same key)
+			for _, w := range want {
+				f.TxId, f.Key = w.TxId, w.Key
 				break
 			}
 		}
